@@ -60,6 +60,21 @@ def run(check):
     for _ in range(per):
         roots = many_waiters(rng)
         jobs.append({'prog': roots, 'nroots': len(roots), 'kw': {'nres': 1, 'resinit': 2}, 'src': 'waiters'})
+    # pipes and collect / first (scenario shapes of C13 / C16, drawn at random)
+    import props.c13 as c13
+    import props.c16 as c16
+    for _ in range(per):
+        sc = {'P': rng.choice([0, 2, 3]),
+              'xs': [{'s': rng.choice([0, 1]), 'v': rng.choice([0, 2, 3, 6]), 'l': rng.choice([0, 1, 2, 6]), 'c': rng.choice([0, 0, 1, 2])}
+                     for _ in range(rng.randint(1, 3))]}
+        prog = c13.program(sc, rng.choice(['cancel', 'close']))
+        jobs.append({'prog': prog, 'nroots': 1, 'kw': {'pipe': sc['P']}, 'src': 'pipe'})
+    for _ in range(per):
+        fop = rng.choice(['collect', 'first'])
+        sc = {'op': fop, 'acts': [{'d': rng.choice([0, 1, 2]), 'f': rng.random() < 0.3} for _ in range(rng.randint(1, 3))],
+              'k': 0 if fop == 'collect' else rng.choice([0, 1, 2, 99]),
+              'cons': rng.choice(['prompt', 'cancel1', 'close1'] if fop == 'collect' else ['prompt', 'slow', 'break1', 'cancel1', 'close1'])}
+        jobs.append({'prog': c16.program(sc), 'nroots': 1, 'src': 'flow'})
     src = os.path.join(check.tmp, 'programs.json')
     with open(src, 'w') as fh:
         json.dump(jobs, fh)
